@@ -98,7 +98,7 @@ func genC11Harness(u *PkgUnit) (int, error) {
 	}
 `, k, c.Scheme, k, f, c.Scheme, k+1, want, k+1)
 		}
-		fmt.Fprintf(&sb, "\tw := newVerifRec()\n\tu := &url.URL{Path: %q}\n\tvrt.SetQuery(u, query)\n\tr := &http.Request{Method: %q, URL: u, Header: hdr}\n\tvrt.Enter()\n\tapi.ServeHTTP(w, r)\n", concretePath(u, op.Tmpl), op.Method)
+		fmt.Fprintf(&sb, "\tw := newVerifRec()\n\tu := &url.URL{Path: %q}\n\tvrt.SetQuery(u, query)\n\tr := &http.Request{Method: %q, URL: u, Header: hdr, Body: http.NoBody}\n\tvrt.Enter()\n\tapi.ServeHTTP(w, r)\n", concretePath(u, op.Tmpl), op.Method)
 		// effective requirement
 		credIdx := map[string]int{}
 		for k, c := range creds {
